@@ -423,6 +423,11 @@ class Repo(object):
                         return None
                     return next((d for d in raw.body if isinstance(d, ast.ClassDef) and d.name == name), None)
                 objflat.restore_private_predicates(tree, gone_, lambda name, tree=tree, rel=rel: self._generator_named(tree, rel, name), _cat_class)
+            try:
+                props_ = objflat.derived_tree_properties(self.text('depccg/tree.py')) if rel.startswith('depccg/') else {}
+            except AnalysisError:
+                props_ = {}
+            objflat.expand_derived_tree_properties(tree, props_)
             objflat.dataclass_constructors(tree)
             objflat.classmethod_constructors(tree)
             objflat.plain_local_assignments(tree)
